@@ -5,7 +5,7 @@ case encoding, the implementation runner with counting input iterators, the
 independent overlap-chain oracle."""
 import itertools
 
-from sexp import S
+from sexp import OPT, S
 
 PID = "C11"
 CLUSTER = "Overlap"
@@ -16,7 +16,8 @@ RULE = ("1-4 inputs (sometimes 0) of intervals drawn from touching/nested/chaine
         "families on a 1..12 line over chromosomes chr1,chr2,chr10 (karyotypic vs lexical order differ) and "
         "barcode pairs T1/T2 x N1/N2; both grouping modes; contig list absent / karyotypic / permuted / 11-30 contigs "
         "with records on both sides of position 10; plain Locatable objects, scheme-less MafRecords and gdc-1.0.0 "
-        "MafRecords read under Silent; four streams: valid (each input sorted by the chosen "
+        "MafRecords read under Silent from lines in the published column order, and MafReader inputs whose header "
+        "declares a sort order; missing barcodes (None, ordered last); positions beyond 2**53; four streams: valid (each input sorted by the chosen "
         "order), single defect (one adjacent descent, name-sorted under a contig list, missing contig), "
         "boundary (end==start touching, end+1==start, one-point, empty inputs, long chains), adversarial "
         "(start>end, false records, shuffled); a long-sparse case (1100+ consecutive groups). The public API is "
@@ -28,7 +29,7 @@ RULE = ("1-4 inputs (sometimes 0) of intervals drawn from touching/nested/chaine
 ASSUMPTIONS = [
     "records are truthy (a MafRecord with zero columns is false and blocks its input; modelled and compared, but outside the theorems' hypotheses)",
     "intervals have start <= end (with start > end the real code emits all-empty groups for ever; modelled, compared, outside the property's quantifier)",
-    "chromosome and barcodes are text, start/end are integers (None components are not generated)",
+    "chromosome is text, barcodes are text or missing (None), start/end are integers of any size",
     "when a contig list is supplied every chromosome of the inputs occurs in it (otherwise ValueError, modelled and compared)",
     "input iterators are list-backed: once exhausted they stay exhausted and never yield None",
 ]
@@ -47,6 +48,17 @@ GDC_VALS = {"Hugo_Symbol": "TP53", "Entrez_Gene_Id": "7157", "Center": "BI", "NC
             "dbSNP_RS": "novel", "Tumor_Sample_Barcode": "T1", "Matched_Norm_Sample_Barcode": "N1",
             "Verification_Status": "Unknown", "Validation_Status": "Untested", "Mutation_Status": "Somatic",
             "Sequencer": "Illumina HiSeq 2000", "Tumor_Sample_UUID": "6e8d6b4c-3b1f-4c1e-9c3a-0a1b2c3d4e5f"}
+
+
+# the column order of gdc-1.0.0 as published (files in the wild are written in this order); kept here
+# independently of the tree under check, whose shipped scheme must agree with it
+GDC_PUBLISHED = ['Hugo_Symbol', 'Entrez_Gene_Id', 'Center', 'NCBI_Build', 'Chromosome', 'Start_Position', 'End_Position',
+                 'Strand', 'Variant_Classification', 'Variant_Type', 'Reference_Allele', 'Tumor_Seq_Allele1',
+                 'Tumor_Seq_Allele2', 'dbSNP_RS', 'dbSNP_Val_Status', 'Tumor_Sample_Barcode', 'Matched_Norm_Sample_Barcode',
+                 'Match_Norm_Seq_Allele1', 'Match_Norm_Seq_Allele2', 'Tumor_Validation_Allele1', 'Tumor_Validation_Allele2',
+                 'Match_Norm_Validation_Allele1', 'Match_Norm_Validation_Allele2', 'Verification_Status', 'Validation_Status',
+                 'Mutation_Status', 'Sequencing_Phase', 'Sequence_Source', 'Validation_Method', 'Score', 'BAM_File',
+                 'Sequencer', 'Tumor_Sample_UUID', 'Matched_Norm_Sample_UUID']
 
 
 def gdc_cols():
@@ -70,8 +82,13 @@ def okey(case, r):
     """the documented order: (barcodes,) contig rank or name, start, end"""
     ctg = case.get("contigs")
     c = ctg.index(r[CHR]) if ctg else r[CHR]
-    pre = (r[TUM], r[NOR]) if case["by_barcodes"] else ()
+    pre = (_bk(r[TUM]), _bk(r[NOR])) if case["by_barcodes"] else ()
     return pre + (c, r[ST], r[EN])
+
+
+def _bk(b):
+    """a missing barcode (None) sorts after every text"""
+    return (1, "") if b is None else (0, b)
 
 
 def oclass(case, r):
@@ -135,34 +152,36 @@ class Counting:
 
 
 def build_objects(case):
+    """python objects of every input; the kind of object is chosen per input:
+    loc = plain LocatableByAllele, maf = scheme-less MafRecord, gdc = gdc-1.0.0 MafRecord read under Silent
+    from a file in the published column order, reader = a MafReader (scheme-less lines, header declaring a
+    sort order) handed to the iterator as it is"""
     from maflib.locatable import LocatableByAllele
+    from maflib.reader import MafReader
     from maflib.record import MafRecord
+    from maflib.validation import ValidationStringency as VS
+
+    before = dict((k, v) for k, v in case.get("ref_before", []))
+
+    def ref0(r):
+        return before.get(r[ID], r[REF])
 
     def gdc_line(r):
         vals = dict(GDC_VALS, Hugo_Symbol="G%d" % r[ID], Chromosome=r[CHR], Start_Position=str(r[ST]),
-                    End_Position=str(r[EN]), Reference_Allele=r[REF], Tumor_Seq_Allele2=(r[ALTS][0] if r[ALTS] else ""),
-                    Tumor_Sample_Barcode=r[TUM], Matched_Norm_Sample_Barcode=r[NOR])
-        return "\t".join(vals.get(c, "") for c in gdc_cols())
+                    End_Position=str(r[EN]), Reference_Allele=ref0(r), Tumor_Seq_Allele2=(r[ALTS][0] if r[ALTS] else ""),
+                    Tumor_Sample_Barcode=r[TUM], Matched_Norm_Sample_Barcode=(r[NOR] or ""))
+        return "\t".join(vals.get(c, "") for c in GDC_PUBLISHED)
 
-    if case["rectype"] == "gdc":
-        # real records of the built-in scheme, read by the public reader under Silent stringency
-        from maflib.reader import MafReader
-        from maflib.validation import ValidationStringency as VS
-        out = []
-        for inp in case["inputs"]:
-            lines = ["#version gdc-1.0.0", "\t".join(gdc_cols())] + [gdc_line(r) for r in inp if r[TRU]]
-            recs = iter(list(MafReader(lines=lines, validation_stringency=VS.Silent)))
-            out.append([next(recs) if r[TRU] else MafRecord() for r in inp])
-        return out
+    def maf_line(r):
+        if not r[TRU]:
+            return "malformed"            # wrong number of columns: a zero-column (false) record under Silent
+        alt = r[ALTS][0] if r[ALTS] else ""
+        pos = ["" if v is None else str(v) for v in (r[ST], r[EN])]     # None: an empty position cell
+        return "\t".join([r[TUM], r[NOR], r[CHR], pos[0], pos[1], ref0(r), alt, str(r[ID])])
 
-    def mk(r):
+    def mk_loc(r):
         if not r[TRU]:
             return MafRecord()          # zero columns: the false record
-        if case["rectype"] == "maf":
-            alt = r[ALTS][0] if r[ALTS] else ""
-            pos = ["" if v is None else str(v) for v in (r[ST], r[EN])]     # None: an empty position cell
-            line = "\t".join([r[TUM], r[NOR], r[CHR], pos[0], pos[1], r[REF], alt, str(r[ID])])
-            return MafRecord.from_line(line, column_names=COLS)
         if case.get("setters"):
             # the same locatable, filled in through the public property setters
             o = LocatableByAllele(None, None, None, r[REF], list(r[ALTS]))
@@ -176,7 +195,23 @@ def build_objects(case):
         o.value = vals.get
         return o
 
-    return [[mk(r) for r in inp] for inp in case["inputs"]]
+    out = []
+    for inp, rt in zip(case["inputs"], rectypes_of(case)):
+        if rt == "gdc":
+            lines = ["#version gdc-1.0.0", "\t".join(GDC_PUBLISHED)] + [gdc_line(r) for r in inp if r[TRU]]
+            recs = iter(list(MafReader(lines=lines, validation_stringency=VS.Silent)))
+            out.append([next(recs) if r[TRU] else MafRecord() for r in inp])
+        elif rt == "reader":
+            hdr = ["#sort.order " + case.get("reader_order", "Coordinate")]
+            if case.get("reader_contigs"):
+                hdr.append("#contigs " + ",".join(case["reader_contigs"]))
+            out.append(MafReader(lines=hdr + ["\t".join(COLS)] + [maf_line(r) for r in inp],
+                                 validation_stringency=VS.Silent))
+        elif rt == "maf":
+            out.append([MafRecord.from_line(maf_line(r), column_names=COLS) if r[TRU] else MafRecord() for r in inp])
+        else:
+            out.append([mk_loc(r) for r in inp])
+    return out
 
 
 def rid_of(o):
@@ -197,7 +232,19 @@ def run_overlap(case):
                                      LocatableOverlapIterator)
 
     objs = build_objects(case)
-    cnt = [Counting(x) for x in objs]
+    if case.get("ref_before"):
+        # an earlier allele-aware pass over the same record objects, then Reference_Allele edited in place
+        try:
+            list(LocatableByAlleleOverlapIterator([iter(x) for x in objs], contigs=case.get("contigs"),
+                                                  by_barcodes=case["by_barcodes"]))
+        except Exception:
+            pass
+        final = dict((r[ID], r[REF]) for inp in case["inputs"] for r in inp)
+        for x in objs:
+            for o in x:
+                if len(o):
+                    o["Reference_Allele"].value = final[rid_of(o)]
+    cnt = [x if not isinstance(x, list) else Counting(x) for x in objs]
     # documented defaults: contigs=None, by_barcodes=True, overlap_type=Equality, the stock PeekableIterator;
     # with "defaults" every argument that has its default value is left out of the call
     dflt = bool(case.get("defaults"))
@@ -253,18 +300,22 @@ def run_overlap(case):
             it = LocatableByAlleleOverlapIterator(cnt, **akw, **kw)
     except Exception as e:
         return {"init": [1, exc_code(e)], "steps": []}
-    obs = {"init": [0, [c.n for c in cnt]], "steps": []}
+
+    def pulled():
+        return [getattr(c, "n", None) for c in cnt]
+
+    obs = {"init": [0, pulled()], "steps": []}
     via = case.get("via", 0)            # 0: next(it)   1: it.next()   2: alternating
     for ncall in range(case["calls"]):
         try:
             g = it.next() if (via == 1 or (via == 2 and ncall % 2 == 1)) else next(it)
             out = [0, [[rid_of(o) for o in slot] for slot in g]]
         except StopIteration:
-            obs["steps"].append([[1, 6], [c.n for c in cnt]])
+            obs["steps"].append([[1, 6], pulled()])
             break
         except Exception as e:
             out = [1, exc_code(e)]
-        obs["steps"].append([out, [c.n for c in cnt]])
+        obs["steps"].append([out, pulled()])
     return obs
 
 
@@ -276,7 +327,7 @@ def run_impl(case):
 
 # ---------------------------------------------------------------- model wire
 def m_rec(r):
-    return [r[ID], 1 if r[TRU] else 0, S(r[TUM]), S(r[NOR]), S(r[CHR]), r[ST], r[EN], S(r[REF]),
+    return [r[ID], 1 if r[TRU] else 0, OPT(r[TUM], S), OPT(r[NOR], S), S(r[CHR]), r[ST], r[EN], S(r[REF]),
             [S(a) for a in r[ALTS]]]
 
 
@@ -308,10 +359,30 @@ def d_overlap(sx):
     return obs
 
 
+def mask_consumed(case, obs):
+    """pull counts of inputs that are MafReaders are counts of lines, which the model does not have"""
+    rts = rectypes_of(case)
+    if "reader" not in rts:
+        return obs
+
+    def m(cons):
+        return [None if rts[i] == "reader" else c for i, c in enumerate(cons)]
+
+    if obs["init"][0] == 0:
+        obs["init"][1] = m(obs["init"][1])
+    for st in obs["steps"]:
+        st[1] = m(st[1])
+    return obs
+
+
+def rectypes_of(case):
+    return case.get("rectypes") or [case["rectype"]] * len(case["inputs"])
+
+
 def from_model(case, sx):
     if "exh" in case:
         return {"batch": [d_overlap(x) for x in sx]}
-    return d_overlap(sx)
+    return mask_consumed(case, d_overlap(sx))
 
 
 # ---------------------------------------------------------------- the property oracle
@@ -414,6 +485,8 @@ def classify(case, obs):
     if dom == "dom":
         srt = "sorted" if all(first_descent(case, i) is None for i in case["inputs"]) else "unsorted"
     nctg = len(case.get("contigs") or [])
+    if "reader" in rectypes_of(case):
+        return "%s/MafReader-inputs/%s" % (case["stream"], "dom" if in_domain(case) else "outside")
     mode = ("bar" if case["by_barcodes"] else "coord") + ("+ctg>10" if nctg > 10 else "+ctg" if nctg else "")
     return "%s/%s/%s/%s/n=%d" % (case["stream"], mode, dom, srt, len(case["inputs"]))
 
@@ -469,6 +542,17 @@ def _records(rng, n, nchrom, nbar, family, pool=None):
     return out
 
 
+def drop_barcodes(rng, case):
+    """some records have no matched-normal (or no tumor) barcode: tumor-only calls, absent column"""
+    for inp in case["inputs"]:
+        for r in inp:
+            if rng.random() < 0.3:
+                r[NOR] = None
+            if rng.random() < 0.1:
+                r[TUM] = None
+    return case
+
+
 def long_contigs(rng):
     """a contig list with 11-30 entries and a pool of chromosomes on both sides of position 10
     (ranks whose decimal spellings order differently from the numbers)"""
@@ -484,6 +568,13 @@ def long_contigs(rng):
 def _mkcase(rng, stream, recs_per_input, by_barcodes, contigs, rectype, kind=0, otype=0):
     case = {"stream": stream, "kind": kind, "otype": otype, "by_barcodes": by_barcodes,
             "contigs": contigs, "rectype": rectype, "inputs": recs_per_input, "calls": 0}
+    for inp in recs_per_input:
+        for r in inp:
+            if rectype == "maf":           # scheme-less text: a missing barcode is the empty text
+                r[TUM] = r[TUM] or ""
+                r[NOR] = r[NOR] or ""
+            elif rectype == "gdc":         # typed: the tumor barcode is mandatory, an empty normal barcode is None
+                r[TUM] = r[TUM] or "T1"
     if rectype in ("maf", "gdc"):
         # MafRecord.alts is always the one-element list [Tumor_Seq_Allele2]; scheme-less an empty cell is the
         # allele ""; under gdc-1.0.0 an empty DnaString cell is rejected and the column dropped (alts then
@@ -513,6 +604,15 @@ def gen_base(rng, stream, kind=0, otype=0):
     if rng.random() < 0.25:
         longc, pool = long_contigs(rng)
     inputs = [_records(rng, rng.choice([0, 1, 2, 3, 4, 5]), nchrom, nbar, family, pool) for _ in range(nin)]
+    if rng.random() < 0.2:
+        drop_barcodes(rng, {"inputs": inputs})
+    if rng.random() < 0.08:
+        # positions beyond 2**53: they must stay exact integers
+        base = rng.choice([2 ** 53, 2 ** 53 + 1, 2 ** 63, 10 ** 20])
+        for inp in inputs:
+            for rec in inp:
+                rec[ST] += base
+                rec[EN] += base
     r = rng.random()
     if longc:
         contigs = longc
@@ -564,6 +664,19 @@ def gen_long_sparse(rng, kind=1, otype=0, n=None):
     return case
 
 
+def as_readers(rng, case):
+    """the same scheme-less records handed over as MafReaders whose header declares a sort order
+    (the reader's own order check is not the iterator's business: the chosen order is the supplied one)"""
+    if case["rectype"] != "maf" or case.get("peek_sub") or any(
+            (not r[TRU]) or r[ST] is None for inp in case["inputs"] for r in inp):
+        return case
+    case["rectypes"] = [rng.choice(["reader", "reader", "maf"]) for _ in case["inputs"]]
+    case["reader_order"] = rng.choice(["Coordinate", "BarcodesAndCoordinate"])
+    if rng.random() < 0.3:
+        case["reader_contigs"] = sorted(set(KARYO + (case.get("contigs") or [])))
+    return case
+
+
 def gen_valid(rng, kind=0, otype=0):
     return fix_ids(gen_base(rng, "valid", kind, otype))
 
@@ -584,7 +697,7 @@ def gen_defect(rng, kind=0, otype=0):
             if not case.get("contigs"):
                 case["contigs"] = list(KARYO)
             for inp in case["inputs"]:                  # sorted by name although a contig list is given
-                inp.sort(key=lambda r: ((r[TUM], r[NOR]) if case["by_barcodes"] else ()) + (r[CHR], r[ST], r[EN]))
+                inp.sort(key=lambda r: ((_bk(r[TUM]), _bk(r[NOR])) if case["by_barcodes"] else ()) + (r[CHR], r[ST], r[EN]))
         else:
             used = sorted(set(r[CHR] for inp in case["inputs"] for r in inp))
             if not used:
@@ -599,7 +712,7 @@ def gen_defect(rng, kind=0, otype=0):
 def _sort_inputs_partial(case):
     ctg = case["contigs"]
     for inp in case["inputs"]:
-        inp.sort(key=lambda r: ((r[TUM], r[NOR]) if case["by_barcodes"] else ()) +
+        inp.sort(key=lambda r: ((_bk(r[TUM]), _bk(r[NOR])) if case["by_barcodes"] else ()) +
                  (ctg.index(r[CHR]) if r[CHR] in ctg else 99, r[ST], r[EN]))
 
 
@@ -666,9 +779,9 @@ def generate(rng, n):
         if k % 1200 == 11:
             out.append(gen_long_sparse(rng, 0, 0, rng.randint(1100, 1600)))
         elif r < 4:
-            out.append(gen_valid(rng))
+            out.append(as_readers(rng, gen_valid(rng)) if k % 3 == 0 else gen_valid(rng))
         elif r < 6:
-            out.append(gen_defect(rng))
+            out.append(as_readers(rng, gen_defect(rng)) if k % 4 == 1 else gen_defect(rng))
         elif r < 8:
             out.append(gen_boundary(rng))
         else:
@@ -764,6 +877,22 @@ def corpus():
         out.append(fix_ids({"stream": "corpus", "kind": 0, "otype": 0, "by_barcodes": bb, "contigs": list(c25), "rectype": "loc",
                             "inputs": [[_r(0, "chr3", 1, 5), _r(0, "chr11", 1, 5)], [_r(0, "chr2", 4, 4), _r(0, "chr10", 2, 9), _r(0, "chr11", 5, 6)]],
                             "calls": 0}))
+    # r4: MafReader inputs whose header declares an order other than the supplied one; a missing normal barcode
+    # sorts after every text; positions beyond 2**53 stay exact
+    out.append(fix_ids({"stream": "corpus", "kind": 0, "otype": 0, "by_barcodes": False, "contigs": ["chr2", "chr10", "chr1"],
+                        "rectype": "maf", "rectypes": ["reader", "reader"], "reader_order": "Coordinate",
+                        "inputs": [[_r(0, "chr2", 1, 5), _r(0, "chr10", 1, 5), _r(0, "chr1", 3, 3)], [_r(0, "chr10", 5, 6), _r(0, "chr1", 1, 2)]],
+                        "calls": 0}))
+    out.append(fix_ids({"stream": "corpus", "kind": 0, "otype": 0, "by_barcodes": True, "contigs": None, "rectype": "loc",
+                        "inputs": [[_r(0, "chr1", 1, 5, n="N1"), _r(0, "chr1", 1, 5, n=None)], [_r(0, "chr1", 2, 2, n="N2"), _r(0, "chr1", 5, 6, n=None)]],
+                        "calls": 0}))
+    out.append(fix_ids({"stream": "corpus", "kind": 0, "otype": 0, "by_barcodes": True, "contigs": None, "rectype": "gdc",
+                        "inputs": [[_r(0, "chr1", 1, 5, n="N1"), _r(0, "chr1", 1, 5, n=None)]], "calls": 0}))
+    P = 2 ** 53
+    out.append(fix_ids({"stream": "corpus", "kind": 0, "otype": 0, "by_barcodes": False, "contigs": None, "rectype": "maf",
+                        "inputs": [[_r(0, "chr1", P, P), _r(0, "chr1", P + 1, P + 1)], [_r(0, "chr1", P + 2, P + 3)]], "calls": 0}))
+    out.append(fix_ids({"stream": "corpus", "kind": 0, "otype": 0, "by_barcodes": False, "contigs": None, "rectype": "loc",
+                        "inputs": [[_r(0, "chr1", P + 1, P + 1), _r(0, "chr1", P, P)]], "calls": 0}))
     # an adjacent descent
     out.append(fix_ids({"stream": "corpus", "kind": 0, "otype": 0, "by_barcodes": False, "contigs": None, "rectype": "loc",
                         "inputs": [[_r(0, "chr1", 1, 2), _r(0, "chr1", 8, 9), _r(0, "chr1", 4, 5)], [_r(0, "chr1", 2, 3)]],
@@ -779,9 +908,14 @@ def shrink(case):
     ins = case["inputs"]
     for i in range(len(ins)):
         if len(ins) > 1:
-            yield fix_ids(dict(case, inputs=[[list(r) for r in x] for k, x in enumerate(ins) if k != i]))
+            c2 = dict(case, inputs=[[list(r) for r in x] for k, x in enumerate(ins) if k != i])
+            if case.get("rectypes"):
+                c2["rectypes"] = [t for k, t in enumerate(case["rectypes"]) if k != i]
+            yield fix_ids(c2)
         for j in range(len(ins[i])):
             yield fix_ids(dict(case, inputs=[[list(r) for jj, r in enumerate(x) if not (k == i and jj == j)]
                                             for k, x in enumerate(ins)]))
+    if case.get("rectypes"):
+        yield dict({k: v for k, v in case.items() if k != "rectypes"})
     if case.get("rectype") in ("maf", "gdc"):
         yield dict(case, rectype="loc")
